@@ -43,11 +43,11 @@ META = {
     'ref': 'DESIGN.md section 5 C10',
 }
 
-PARAMS = ('a', 'b', 'n', 's', 'l', 'k', 'z', 'oi', 'r1', 'r2')
+PARAMS = ('a', 'b', 'n', 's', 'l', 'k', 'z', 'oi', 'r1', 'r2', 'g1', 'g2', 'h1', 'h2')
 LENGTH = {'s': ('minchars', 'maxchars'), 'l': ('minlen', 'maxlen'), 'k': ('minbytes', 'maxbytes')}   # limits = lengths
 UNITS = {'': 0, 'mm': 1, 'K': 2}
 VIS = {1: 'user', 2: 'advanced', 3: 'expert', 9: 'bogus'}
-GROUPS = {0: '', 1: 'g1', 2: 'g2'}
+GROUPS = {0: '', 1: 'grp1', 2: 'grp2'}
 MODNAME = 'frappy_verifc10'          # get_class() only imports names starting with 'frappy'
 
 # ------------------------------------------------------------------ the configured class
@@ -59,6 +59,7 @@ def _classes():
         return sys.modules[MODNAME]
     from frappy.core import ArrayOf, BLOBType, Command, FloatRange, IntRange, Parameter, Property, Readable, StringType
     from frappy.errors import HardwareError
+    from frappy.rwhandler import CommonWriteHandler
     from frappy.params import Limit
 
     class CfgBase(Readable):
@@ -82,6 +83,30 @@ def _classes():
 
         def oc(self, x):
             return x
+
+        g1 = Parameter('g1', FloatRange(0, 100), default=1, readonly=False)
+        g2 = Parameter('g2', FloatRange(0, 100), default=2, readonly=False)
+        h1 = Parameter('h1', FloatRange(0, 100), default=3, readonly=False)
+        h2 = Parameter('h2', FloatRange(0, 100), default=4, readonly=False)
+
+        @CommonWriteHandler(['g1', 'g2'])
+        def write_grp(self, values):
+            """ONE hardware function for g1 and g2: takes the configured value of the sibling along"""
+            trigger = next(iter(values))           # (only the key the call was made for is there at entry)
+            vals = {k: values[k] for k in ('g1', 'g2')}
+            self._hw('write', trigger, vals[trigger], {k: v for k, v in vals.items() if k != trigger})
+            self.g1, self.g2 = vals['g1'], vals['g2']
+
+        def write_h1(self, value):
+            """a plain write method that sends h2 together with h1"""
+            h2 = self.writeDict.pop('h2', self.h2)
+            self._hw('write', 'h1', value, {'h2': h2})
+            self.h2 = h2
+            return value
+
+        def write_h2(self, value):
+            self._hw('write', 'h2', value, {})
+            return value
 
         mp = Property('mandatory property', IntRange(0, 5))
         op = Property('optional property', FloatRange(0, 10), default=1, extname='_op')
@@ -436,7 +461,8 @@ def _observe_run(srv, files, trace):
             seen_poll = False
             for e in hw[m]:
                 if e[0] == 'write':
-                    trace.append({'ev': 'write', 'm': m, 'p': e[1], 'v': _tick(e[2])})
+                    trace.append({'ev': 'write', 'm': m, 'p': e[1], 'v': _tick(e[2]),
+                                  'vals': {q: _tick(v)['n'] for q, v in (e[3] if len(e) > 3 else {}).items()}})
                 elif not seen_poll:
                     seen_poll = True
                     trace.append({'ev': 'poll', 'm': m})
